@@ -51,6 +51,23 @@ def run(ctx, P):
                 check_against_ref(ctx, f"append[{'+'.join(map(str, chunks))}],recollapse={extra}", m2.candles, ref)
         m3 = drive_manager(cs, tf, False, 1, [1] * (n - 1))
         check_against_ref(ctx, "preload1+singles", m3.candles, ref)
+        # the stream handed over in the other accepted encodings (dicts, capitalised dicts, lists with the timestamp
+        # first or last), as one chunk of two and then singles: the buckets are those of the RAW stream
+        _, _, Candle, CandleManager, _ = lib()
+        forms = {
+            "dict": lambda c: dict(open=c.open, high=c.high, low=c.low, close=c.close, volume=c.volume, timestamp=c.timestamp),
+            "Dict": lambda c: dict(Open=c.open, High=c.high, Low=c.low, Close=c.close, Volume=c.volume, Timestamp=c.timestamp),
+            "list-ts-last": lambda c: [c.open, c.high, c.low, c.close, c.volume, c.timestamp],
+            "list-ts-first": lambda c: [c.timestamp, c.open, c.high, c.low, c.close, c.volume],
+        }
+        for fname, enc in forms.items():
+            m4 = CandleManager([], timeframe=tf)
+            m4.append([enc(c) for c in cs[:2]])
+            for c in cs[2:]:
+                m4.append(enc(c))
+            check_against_ref(ctx, f"input as {fname}", m4.candles, ref)
+        built = Candle.from_dicts([forms["dict"](c) for c in cs]) if n % 2 else Candle.from_lists([forms["list-ts-last"](c) for c in cs])
+        check_against_ref(ctx, "Candle.from_dicts / from_lists at construction", CandleManager(built, timeframe=tf).candles, ref)
     else:
         _, _, _, _, Hexital = lib()
         ind = build("EMA", dict(period=2), candles=clone(cs), timeframe=tf)
